@@ -150,6 +150,40 @@ Theorem tensor_out_complete :
 Proof. exact @tens_out_complete. Qed.
 Print Assumptions tensor_out_complete.
 
+(* out= together with dtype=d where the out buffer has ANOTHER dtype (the
+   write-back path of odl.util.writable_array: converted temporary copy,
+   NumPy writes into the copy, the copy is assigned back).  Under the facts
+   about NumPy that the dtype= keyword fixes the computation (the result [r]
+   does not depend on the dtype of out, and has dtype d), that the result has
+   out's shape, that d -> out dtype is an admissible 'same_kind' cast and that
+   d -> d converts nothing: the ODL call returns the given container, its
+   buffer ends with exactly the data and dtype NumPy leaves when called
+   directly with out = that buffer, and no other initial buffer changes on
+   either side.  (Without the same_kind premise ODL still writes where NumPy
+   refuses -- reported as a discrepancy outside the property.) *)
+Theorem tensor_out_with_dtype_keyword :
+  forall (T : Type) (cast : dt -> dt -> T -> T) (V : variant) (NP : @npsem T) (st : @store T)
+         (m : meth) (kw : kwargs) (rins : list (@rop T)) (id : nat) (d : dt) (r : @narr T),
+  is_at m = false -> (id < length st)%nat ->
+  Forall (fun x => match x with RopBuf i => (i < length st)%nat | RopScal _ => True end) rins ->
+  (forall odt, NP (mkReq m kw (map (raw_in st) rins) [Some (odt, a_shape (rd st id))]) = Ok [r]) ->
+  a_dt r = d ->
+  shape_eqb (a_shape r) (a_shape (rd st id)) = true ->
+  can_cast d (a_dt (rd st id)) = true ->
+  forall (sp : tspace) (ins : list (@operand T)) (o : @operand T),
+  kw_dtype kw = Some d ->
+  tens_valid_out (Some o) = true -> op_buf o = Some id ->
+  dt_eqb d (a_dt (rd st id)) = false ->
+  map_opt tens_unwrap ins = Some rins ->
+  (forall v, cast d d v = v) ->
+  exists st' str,
+    tens_ufunc cast V NP st sp 1 m ins kw [Some o] = Ok ([o], st')
+    /\ raw_ufunc cast NP st m kw rins [Some id] = Ok ([RRBuf id], str)
+    /\ a_data (rd st' id) = a_data (rd str id) /\ a_dt (rd st' id) = a_dt (rd str id)
+    /\ forall j, (j < length st)%nat -> j <> id -> rd st' j = rd st j /\ rd str j = rd st j.
+Proof. exact @tens_out_dtype_kw. Qed.
+Print Assumptions tensor_out_with_dtype_keyword.
+
 (* "and changes nothing else": a raw ufunc call changes no buffer other than
    the given out buffers (and, for at, its first operand); together with the
    store equalities above this is the frame property of the ODL call. *)
